@@ -5,7 +5,7 @@
    Where the faithful model violates a statement at full strength, the full statement is quoted in the comment, the theorem
    `*_refuted` exhibits a concrete witness (replayed on the real code by checks/fmtps.py) and the theorem itself is stated on
    the decidable domain ps_dom / deb_wf. *)
-From Relic Require Import Base.Prelude Base.Enc Generated.FmtPS_gen FmtPS.Model FmtPS.Lib FmtPS.ProofsPS FmtPS.ProofsPS2 FmtPS.ProofsAR FmtPS.ProofsDEB FmtPS.ProofsSlot Laws.Pipeline.
+From Relic Require Import Base.Prelude Base.Enc Generated.FmtPS_gen FmtPS.Model FmtPS.Lib FmtPS.ProofsPS FmtPS.ProofsPS2 FmtPS.ProofsAR FmtPS.ProofsDEB FmtPS.ProofsSlot FmtPS.ModelText FmtPS.ProofsText Laws.Pipeline.
 
 (* ====================================================================================================== PowerShell *)
 (* the format handed to Laws/Pipeline.v is  ps_format style = (ps_hashin style, ps_embed_wf style, ps_extract style, ps_payload style);
@@ -420,3 +420,50 @@ Proof. vm_compute. repeat split; try reflexivity. discriminate. Qed.
 Example sign_hypothesis_satisfiable2 :
   is_ok (sign_file unit unit unit (fun a m => [a; zlen m mod 256]) (fun _ => tt) (fun _ _ => tt) (fun _ d => d) toy_ser _ (deb_format2 w_ctl w_role_builder 0) tt 4 w_deb_mixed) = true.
 Proof. vm_compute. reflexivity. Qed.
+
+(* ====================================================================================================== text encoding step
+   writeUtf16 / toUtf16 of lib/authenticode/powershell.go. ps_w16_rune / ps_t16_rune / ps_w16_pass are GENERATED from the Go
+   source (Generated/FmtPS_gen.v): the bytes emitted for one rune of the UTF-8 text, and what the UTF-16 path writes. *)
+(* ---- C02 *)
+(* the generated encoder is the conversion the digest model ps_hashin uses (ps_conv), for both paths *)
+Theorem ps_write_utf16_model : forall is16 x, ps_write_utf16 is16 x = ps_conv is16 x.
+Proof. exact FmtPS.ProofsText.ps_write_utf16_model. Qed.
+(* for all valid UTF-8 texts: equal digest input implies equal text (every change of a character, in any plane, changes it) *)
+Theorem ps_utf16_encode_injective : forall cps1 cps2 t1 t2,
+  scalars_ok cps1 = true -> t1 = utf8_enc cps1 -> scalars_ok cps2 = true -> t2 = utf8_enc cps2 ->
+  ps_write_utf16 false t1 = ps_write_utf16 false t2 -> t1 = t2 /\ cps1 = cps2.
+Proof. exact FmtPS.ProofsText.ps_utf16_encode_injective. Qed.
+Theorem ps_conv_injective : forall cps1 cps2, scalars_ok cps1 = true -> scalars_ok cps2 = true ->
+  ps_conv false (utf8_enc cps1) = ps_conv false (utf8_enc cps2) -> utf8_enc cps1 = utf8_enc cps2.
+Proof. exact FmtPS.ProofsText.ps_conv_injective. Qed.
+Theorem ps_utf16_char_change : forall pre c1 c2 post,
+  scalars_ok (pre ++ c1 :: post) = true -> scalars_ok (pre ++ c2 :: post) = true -> c1 <> c2 ->
+  ps_write_utf16 false (utf8_enc (pre ++ c1 :: post)) <> ps_write_utf16 false (utf8_enc (pre ++ c2 :: post)).
+Proof. exact FmtPS.ProofsText.ps_utf16_char_change. Qed.
+(* the UTF-16 path hands the text to the hash unchanged (injective trivially) *)
+Theorem ps_utf16_pass_identity : forall x, ps_write_utf16 true x = x.
+Proof. exact FmtPS.ProofsText.ps_utf16_pass_identity. Qed.
+(* ---- C05 *)
+(* the emitted bytes are the UTF-16-LE of the Unicode standard: per scalar value, with surrogate pairs for planes 1..16, and for a text *)
+Theorem ps_w16_rune_is_spec : forall c, valid_scalar c = true -> ps_w16_rune c = uni_utf16le_cp c.
+Proof. exact FmtPS.ProofsText.ps_w16_rune_is_spec. Qed.
+Theorem ps_w16_rune_surrogates : forall c, 65536 <= c <= 1114111 ->
+  ps_w16_rune c = [ (55296 + (c - 65536) / 1024) mod 256; (55296 + (c - 65536) / 1024) / 256;
+                    (56320 + (c - 65536) mod 1024) mod 256; (56320 + (c - 65536) mod 1024) / 256 ].
+Proof. exact FmtPS.ProofsText.ps_w16_rune_surrogates. Qed.
+Theorem ps_utf16_is_spec : forall cps, scalars_ok cps = true -> ps_write_utf16 false (utf8_enc cps) = uni_utf16le cps.
+Proof. exact FmtPS.ProofsText.ps_utf16_is_spec. Qed.
+Theorem ps_to_utf16_model : forall x, ps_to_utf16 x = to_utf16 x.
+Proof. exact FmtPS.ProofsText.ps_to_utf16_model. Qed.
+Theorem ps_bom_is_spec : forall b0 b1 r, ps_is16 (b0 :: b1 :: r) = bytes_eqb [b0; b1] uni_bom.
+Proof. exact FmtPS.ProofsText.ps_bom_is_spec. Qed.
+(* non-vacuity: U+1F600 is f0 9f 98 80 in UTF-8 and the pair D83D DE00 in the digest input; U+2F600 and U+F600 (same low 16 bits)
+   give different digest inputs; the hypotheses of ps_utf16_char_change are satisfiable with an astral character *)
+Example ps_astral_bytes :
+  utf8_enc [128512] = [240; 159; 152; 128] /\ ps_write_utf16 false [240; 159; 152; 128] = [61; 216; 0; 222]
+  /\ ps_write_utf16 false [240; 175; 152; 128] = [125; 216; 0; 222] /\ ps_write_utf16 false [239; 152; 128] = [0; 246]
+  /\ ps_write_utf16 false (utf8_enc [65536]) = [0; 216; 0; 220] /\ ps_write_utf16 false (utf8_enc [1114111]) = [255; 219; 255; 223].
+Proof. vm_compute. repeat split; reflexivity. Qed.
+Example ps_astral_change_satisfiable :
+  scalars_ok ([39] ++ 128512 :: [39]) = true /\ scalars_ok ([39] ++ 193024 :: [39]) = true /\ 128512 <> 193024.
+Proof. split; [reflexivity|split; [reflexivity|discriminate]]. Qed.
